@@ -78,7 +78,7 @@ contract(
 )
 
 contract(
-    IP, "ImportanceFlowProposal.update_log_q", props=["C03"],
+    IP, "ImportanceFlowProposal.update_log_q", props=["C03", "C08"],
     self_shape="ISProposalC03",
     params={"samples": INS_ARR, "log_q": "Tbl(QRow)"},
     requires=["len(log_q) == len(samples)", "len(samples) >= 1",
@@ -308,3 +308,129 @@ def aup_contract(store, variant, iid):
 
 aup_contract("training_samples", "c03", False)
 aup_contract("iid_samples", "c03-iid", True)
+
+# ---- evaluating the meta-proposal at new points -----------------------------
+_S["FlowSetAbs"].attrs.update({"n_models": "Int",
+                               "models": "Seq(Row(training:Bool))"})
+_S["FlowSetAbs"].methods.update({
+    "log_prob_all": Contract(
+        "<abstract>", "FlowSetAbs.log_prob_all", params={"x": XT},
+        trusted=True,
+        trusted_reason="ImportanceFlowModel.log_prob_all: column k is the "
+        "level-k flow's log-density LPX(k, .) (flow evaluation: C08)",
+        returns="Tbl(QRow)",
+        ensures=["len(result) == len(x)",
+                 "forall(i, 0, len(x), ncol(result[i]) == self.n_models)",
+                 "forall2(i, len(x), k, self.n_models, "
+                 "col(result[i], k) == LPX(k, x[i]))"]),
+})
+contract(
+    IP, "ImportanceFlowProposal.compute_log_Q", props=["C03", "C08"],
+    self_shape="ISProposalC03", log_domain=True,
+    params={"x_prime": XT, "log_j": "Opt(Seq(Real))"},
+    requires=[
+        "implies(log_j is not None, len(log_j) == len(x_prime))",
+        # one weight per proposal: the initial one and one per trained flow
+        f"self.flow.n_models == {NW} - 1", f"{NW} >= 1",
+    ],
+    returns="Tuple(Seq(Real),Tbl(QRow))",
+    raises={"RuntimeError":
+            f"exists(p, 0, {NW}, isnan({W}[p - 1])) or "
+            f"({NW} > 1 and log_j is None) or "
+            "exists(k, 0, len(self.flow.models), "
+            "self.flow.models[k]['training'])"},
+    may_raise={"ValueError": None},      # a NaN mixture is reported
+    ensures=[
+        "len(result[0]) == len(x_prime) and len(result[1]) == len(x_prime)",
+        f"forall(i, 0, len(x_prime), ncol(result[1][i]) == {NW})",
+        # column 0: the initial uniform proposal; column j: flow j-1 at the
+        # point, times the Jacobian that was handed in
+        "forall(i, 0, len(x_prime), col(result[1][i], 0) == 0)",
+        f"forall2(i, len(x_prime), j, {NW}, implies(j >= 1, "
+        "col(result[1][i], j) == LPX(j - 1, x_prime[i]) + log_j[i]))",
+        "forall(i, 0, len(x_prime), E(result[0][i]) == "
+        + MIX.format(w=W, row="result[1][i]") + ")",
+    ],
+)
+
+# ---- drawing new samples: ImportanceFlowProposal.draw ----------------------
+from .shapes import INS_LP
+shape("ISModelAbs", {}, methods={
+    "in_unit_hypercube": Contract(
+        "<abstract>", "ISModelAbs.in_unit_hypercube", params={"x": INS_ARR},
+        trusted=True, trusted_reason="Model.in_unit_hypercube as the "
+        "abstract predicate InUnit on the point", returns="Seq(Bool)",
+        ensures=["len(result) == len(x)",
+                 "forall(i, 0, len(x), result[i] == InUnit(x[i]['x']))"]),
+    "batch_evaluate_log_prior": Contract(
+        "<abstract>", "ISModelAbs.batch_evaluate_log_prior",
+        params={"x": INS_ARR, "unit_hypercube": "Bool"}, trusted=True,
+        trusted_reason="prior values (C10)", returns="Seq(Real)",
+        ensures=["len(result) == len(x)"]),
+    "batch_evaluate_log_prior_unit_hypercube": Contract(
+        "<abstract>", "ISModelAbs.batch_evaluate_log_prior_unit_hypercube",
+        params={"x": INS_ARR}, trusted=True,
+        trusted_reason="unit-hypercube prior values (C10)",
+        returns="Seq(Real)", ensures=["len(result) == len(x)"]),
+})
+_S["ISProposalC03"].attrs.update({
+    "model": "Obj(ISModelAbs)", "dtype": f"DType({INS_LP})",
+})
+_S["FlowSetAbs"].methods.update({
+    "sample_ith": Contract(
+        "<abstract>", "FlowSetAbs.sample_ith",
+        params={"i": "Int", "N": "Int"}, trusted=True,
+        trusted_reason="draws N points from flow i", returns=XT,
+        ensures=["len(result) == N"]),
+})
+_S["ISProposalC03"].methods.update({
+    "inverse_rescale": Contract(
+        "<abstract>", "ImportanceFlowProposal.inverse_rescale",
+        params={"x_prime": XT}, trusted=True,
+        trusted_reason="primed space -> unit hypercube as the abstract map "
+        "Ri (inverse of Rf, C07/C08 axioms) with log-Jacobian RiJ; the other "
+        "fields of the returned structured array are unspecified",
+        returns=f"Tuple({INS_ARR},Seq(Real))",
+        ensures=["len(result[0]) == len(x_prime) and "
+                 "len(result[1]) == len(x_prime)",
+                 "forall(i, 0, len(x_prime), "
+                 "result[0][i]['x'] == Ri(x_prime[i]) and "
+                 "result[1][i] == RiJ(x_prime[i]))"]),
+})
+
+
+def drawn_ok(S, Q, n):
+    """row clauses for the first n rows of (S, Q) under the current weights"""
+    return [
+        f"forall(i, 0, {n}, ncol({Q}[i]) == {NW})",
+        f"forall(i, 0, {n}, col({Q}[i], 0) == 0)",
+        f"forall2(i, {n}, j, {NW}, implies(j >= 1, col({Q}[i], j) == "
+        f"LPX(j - 1, Rf({S}[i]['x'])) + RJ({S}[i]['x'])))",
+        f"forall(i, 0, {n}, E({S}[i]['logQ']) == "
+        + MIX.format(w=W, row=f"{Q}[i]") + ")",
+        f"forall(i, 0, {n}, {S}[i]['logW'] == "
+        f"{S}[i]['logU'] - {S}[i]['logQ'])",
+        # only points inside the unit hypercube are kept (so the likelihood
+        # is never evaluated outside the prior support: C09)
+        f"forall(i, 0, {n}, InUnit({S}[i]['x']))",
+    ]
+
+
+contract(
+    IP, "ImportanceFlowProposal.draw", props=["C03", "C08", "C09"],
+    self_shape="ISProposalC03", log_domain=True,
+    params={"n": "Int", "flow_number": "Opt(Int)"},
+    requires=["n >= 1", f"self.flow.n_models == {NW} - 1", f"{NW} >= 2",
+              f"forall(p, 0, {NW}, not isnan({W}[p - 1]))",
+              "forall(k, 0, len(self.flow.models), "
+              "not self.flow.models[k]['training'])"],
+    returns=f"Tuple({INS_ARR},Tbl(QRow))",
+    may_raise={"ValueError": None},
+    loops={0: {
+        "inv": ["n_accepted >= 0", "len(samples) == n_accepted",
+                "len(log_q_samples) == n_accepted", "n_draw >= 1"]
+        + drawn_ok("samples", "log_q_samples", "n_accepted"),
+    }},
+    ensures=["len(result[0]) == n and len(result[1]) == n"]
+    + drawn_ok("result[0]", "result[1]", "n"),
+)
